@@ -210,6 +210,7 @@ func TestECRecover(t *testing.T) {
 	g := genECRec()
 	checkSerial(rec, t, "ecrecover", ev.N(50, 1200), func(rt *rapid.T) {
 		c := g.Draw(rt, "case")
+		rec.Begin("ecrecover", c)
 		rec.Report(rt, "ecrecover", c, runECRec(c))
 	})
 }
@@ -431,6 +432,7 @@ func TestExpmod(t *testing.T) {
 	})
 	checkSerial(rec, t, "expmod", ev.N(1, 8), func(rt *rapid.T) {
 		c := g.Draw(rt, "case")
+		rec.Begin("expmod", c)
 		rec.Report(rt, "expmod", c, runExpmod(c))
 	})
 }
